@@ -93,17 +93,27 @@ def downOk (r : R) (cls : Class) (cur : Obs) : Except String Unit :=
   else if cur.routes.any (fun x => r.fams.contains x.fam && !marked x) then .error "kept-not-marked"
   else .ok ()
 
+/-- (6) an operator-forced peer-down (shutdown / reset / delete / disable / BFD) in ANY state ends
+    helper mode: afterwards no timer is armed and no marked route is left -/
+def forcedKeeps (cur : Obs) : Bool := cur.grTimer || !cur.llgrTimers.isEmpty || cur.routes.any marked
+
 def sessionEnds (r : R) : R := { r with up := false, awaiting := [], announced := [] }
 
-/-- Events in the property's domain: the GR / LLGR family sets negotiated on a session are
-    non-empty sets of families of that session (`negotiate_gr` / `negotiate_llgr` return `None`
-    for an empty intersection).  From the first event outside the domain on, nothing is demanded. -/
-def wf (r : R) : Ev → Bool
-  | .est fams gr llgr _ =>
-      r.up ||
-      ((match gr with | some n => !n.fams.isEmpty && n.fams.all (fams.contains ·) | none => true) &&
-       (match llgr with | some l => !l.isEmpty && l.all (fams.contains ·) | none => true))
-  | _ => true
+/-- "negotiated": a family of the session for which both ends advertise the capability
+    (the local speaker of the harness advertises MP-BGP, GR and LLGR for families 0..2) -/
+def sessFams (peerFams : List Fam) : List Fam := [0, 1, 2].filter (peerFams.contains ·)
+def negGr (peerFams : List Fam) (peerGr : Option NegGr) : Option NegGr :=
+  match peerGr with
+  | some n =>
+      let fs := (sessFams peerFams).filter (n.fams.contains ·)
+      if fs.isEmpty then none else some { fams := fs, nbit := n.nbit }
+  | none => none
+def negLlgr (peerFams : List Fam) (peerLlgr : Option (List Fam)) : Option (List Fam) :=
+  match peerLlgr with
+  | some l =>
+      let fs := (sessFams peerFams).filter (l.contains ·)
+      if fs.isEmpty then none else some fs
+  | none => none
 
 /-- reference bookkeeping + the clauses specific to the event -/
 def stepOk (r : R) (ev : Ev) (cur : Obs) : Except String R :=
@@ -115,8 +125,8 @@ def stepOk (r : R) (ev : Ev) (cur : Obs) : Except String R :=
   | .est fams gr llgr _ =>
       if r.up then common r
       else
-        let r' := { r with up := true, fams := fams, gr := gr, llgr := llgr,
-                           awaiting := (gr.map (·.fams)).getD [], announced := [] }
+        let r' := { r with up := true, fams := sessFams fams, gr := negGr fams gr, llgr := negLlgr fams llgr,
+                           awaiting := ((negGr fams gr).map (·.fams)).getD [], announced := [] }
         common r'
   | .ann f n _ _ =>
       if r.up && r.fams.contains f then
@@ -136,15 +146,17 @@ def stepOk (r : R) (ev : Ev) (cur : Obs) : Except String R :=
         .error "failed-attempt-disarmed"
       else if r.up && !announcedKept r.announced cur then .error "purge-removed-fresh"
       else common r
-  | .grTimer | .llgrTimer _ =>
+  | .grTimer | .llgrTimer _ | .wait =>
       if r.up && !announcedKept r.announced cur then .error "purge-removed-fresh" else common r
   | .force =>
-      if !r.up then common r
+      if forcedKeeps cur then .error "forced-down-keeps-helper"
+      else if !r.up then common r
       else match downOk r .never cur with
         | .error c => .error c
         | .ok _ => common (sessionEnds r)
   | .disable =>
       if r.adminDown then common r
+      else if forcedKeeps cur then .error "forced-down-keeps-helper"
       else if !r.up then common { r with adminDown := true }
       else match downOk r .never cur with
         | .error c => .error c
@@ -159,10 +171,9 @@ inductive Verdict where
 def checkFrom (r : R) (i : Nat) : List Ev → List Obs → Verdict
   | [], [] => .ok
   | e :: es, o :: os =>
-      if !wf r e then .ok
-      else match stepOk r e o with
-        | .error c => .fail i c
-        | .ok r' => checkFrom r' (i + 1) es os
+      match stepOk r e o with
+      | .error c => .fail i c
+      | .ok r' => checkFrom r' (i + 1) es os
   | _, _ => .fail i "trace-length"
 
 def check (evs : List Ev) (tr : List Obs) : Verdict := checkFrom {} 0 evs tr
